@@ -32,6 +32,8 @@ mod c17_full;
 mod c18;
 mod c19;
 mod c19_b;
+mod c20;
+mod c20_b;
 
 fn main() {
     let args = common::parse_args();
@@ -50,6 +52,7 @@ fn main() {
         "C17" => c17::run(&args),
         "C16" => c16::run(&args),
         "C19" => c19::run(&args),
+        "C20" => c20::run(&args),
         "C18" => c18::run(&args),
         "C08" => c08::run(&args),
         "C12" => c12::run(&args),
